@@ -10,7 +10,8 @@ ODD_CHANS = ["#é", "#a:b", "&", "#", "#x y"]
 HOSTS = ["127.0.0.1", "10.0.0.2", "192.168.1.77", "::1"]
 MASKS = ["*!*@*", "alice!*@*", "*!*@127.0.0.1", "*!~al@*", "bob", "b*", "*o*!*@*", "a?ice", "*@10.0.0.2",
          "carol!~c@*", "*!*@10.*", "x", "*", "?", "*!*@192.168.1.77", "dave!*", "al*ce!~al*@127.*.1"]
-TEXTS = ["hello", "hello world", ":colon start", "a:b c", "", "tab\there", "ünï çødé", "x" * 30, "trailing ", " lead"]
+TEXTS = ["hello", "hello world", ":colon start", "a:b c", "", "tab\there", "ünï çødé", "x" * 30, "trailing ", " lead",
+         ":)", "::", "a:b", "http://x.y:80/", ":"]
 KEYS = ["k1", "k2", "sesame"]
 
 DEFAULT_WEIGHTS = {
@@ -23,6 +24,7 @@ DEFAULT_WEIGHTS = {
 
 PROFILES = {
     "general": {},
+    "pingpong": {"PING": 30, "PONG": 20, "JOIN": 5, "PRIVMSG": 5, "REGSTEP": 6, "CONNECT": 4, "QUIT": 2, "NICK": 3},
     "msg": {"PRIVMSG": 30, "NOTICE": 12, "JOIN": 12, "MODE_CH": 12, "KICK": 4, "NICK": 4, "PART": 4, "AWAY": 3},
     "reg": {"REGSTEP": 40, "CONNECT": 12, "NICK": 10, "EOF": 5, "RESET": 2, "QUIT": 4, "PRIVMSG": 5, "JOIN": 5,
             "WHOIS": 3, "LUSERS": 3, "MODE_CH": 2},
@@ -408,9 +410,9 @@ class Gen:
             self.ops.append("reset %d" % c)
             me["live"] = False
         elif v == "PING":
-            self.line(c, "PING " + r.choice(["tok", ":a b", "12345"]))
+            self.line(c, "PING " + r.choice(["tok", ":a b", "12345", ":", "a b", ":é"]))
         elif v == "PONG":
-            self.line(c, "PONG " + r.choice(["tok", ":LALAL"]))
+            self.line(c, "PONG " + r.choice(["tok", ":LALAL", ":", ":x y"]))
         elif v == "MISC":
             self.line(c, r.choice(["MOTD", "VERSION", "ADMIN", "TIME", "INFO", "HELP", "HELP COMMANDS", "HELP nope",
                                    "LINKS", "REHASH", "RESTART", "CONNECT a.b 6667", "MOTD irc.test", "VERSION *.x",
